@@ -66,9 +66,16 @@ func reverseWithOptions(forward *NFA, anchored bool) *NFA {
 	}
 	allocatePlaceholders(forward, builder, reverseEdges, revStateMap, unanchoredPrefixStates)
 
+	// States of the forward unanchored prefix; edges leaving them never count as
+	// loop-back edges of a start state, whether or not the prefix itself is kept.
+	prefixStates := unanchoredPrefixStates
+	if !anchored && fwdStartUnanchored != fwdStartAnchored {
+		prefixStates = findUnanchoredPrefixStates(forward, fwdStartAnchored, fwdStartUnanchored)
+	}
+
 	// PASS 2: Fill in actual transitions
 	// Pass anchored flag and skipStates to skip unanchored prefix
-	fillAllTransitions(forward, builder, reverseEdges, fwdStartAnchored, fwdStartUnanchored, reverseMatchID, revStateMap, anchored, unanchoredPrefixStates)
+	fillAllTransitions(forward, builder, reverseEdges, fwdStartAnchored, fwdStartUnanchored, reverseMatchID, revStateMap, anchored, unanchoredPrefixStates, prefixStates)
 
 	// Build reverse start states from forward match states
 	forwardMatchIDs := collectMatchStates(forward)
@@ -234,7 +241,7 @@ func findLoopStates(nfa *NFA, start, target StateID, result map[StateID]bool) {
 
 // fillAllTransitions fills in actual transitions for all states
 // When forAnchored is true, skip the unanchored prefix states entirely
-func fillAllTransitions(forward *NFA, builder *Builder, reverseEdges map[StateID][]reverseEdge, fwdAnchored, fwdUnanchored, matchID StateID, revStateMap map[StateID]StateID, forAnchored bool, skipStates map[StateID]bool) {
+func fillAllTransitions(forward *NFA, builder *Builder, reverseEdges map[StateID][]reverseEdge, fwdAnchored, fwdUnanchored, matchID StateID, revStateMap map[StateID]StateID, forAnchored bool, skipStates, prefixStates map[StateID]bool) {
 	for it := forward.Iter(); it.HasNext(); {
 		state := it.Next()
 		fwdID := state.ID()
@@ -259,7 +266,7 @@ func fillAllTransitions(forward *NFA, builder *Builder, reverseEdges map[StateID
 		edges := reverseEdges[fwdID]
 
 		if isStart && hasIncoming {
-			fillStartStateWithIncoming(builder, revID, edges, revStateMap, matchID)
+			fillStartStateWithIncoming(builder, revID, edges, revStateMap, matchID, prefixStates)
 		} else {
 			fillReverseState(builder, revID, edges, revStateMap)
 		}
@@ -402,46 +409,38 @@ func fillReverseState(builder *Builder, revID StateID, edges []reverseEdge, revS
 
 // fillStartStateWithIncoming handles forward start states that have incoming edges (loops)
 // The proxy state is already an epsilon -> match, but we need to add the loop transitions
-func fillStartStateWithIncoming(builder *Builder, proxyID StateID, edges []reverseEdge, revStateMap map[StateID]StateID, matchID StateID) {
+func fillStartStateWithIncoming(builder *Builder, proxyID StateID, edges []reverseEdge, revStateMap map[StateID]StateID, matchID StateID, prefixStates map[StateID]bool) {
 	// The proxy is currently epsilon -> match
 	// If we have incoming edges (from loops), we need to create a split:
 	// proxyID: split -> (transitions from incoming edges), match
 
-	// Collect targets from incoming edges
-	var loopTargets []StateID
+	// Keep only incoming edges whose source state exists in the reverse NFA and
+	// is not part of the forward unanchored prefix (.*?), which must not be
+	// traversed backwards.
+	var kept []reverseEdge
 	for _, edge := range edges {
-		if revTarget, ok := revStateMap[edge.from]; ok {
-			loopTargets = append(loopTargets, revTarget)
+		if _, ok := revStateMap[edge.from]; ok && !prefixStates[edge.from] {
+			kept = append(kept, edge)
 		}
 	}
 
-	if len(loopTargets) == 0 {
+	if len(kept) == 0 {
 		// No actual targets, keep the epsilon -> match
 		return
 	}
 
-	// We need to convert the proxy into a split that goes to both:
-	// 1. The loop targets (to continue matching)
-	// 2. The match state (to accept)
+	// The incoming edges may carry byte labels (e.g. the 'a' transition that
+	// loops back to the start of a*b). Build an ordinary reverse state for them
+	// so that those bytes are consumed in the reverse direction, then turn the
+	// proxy into split -> (that state, match): keep matching, or accept.
+	inner := allocatePlaceholder(builder, kept)
+	fillReverseState(builder, inner, kept, revStateMap)
 
-	// For a single loop target: split -> loopTarget, match
-	// For multiple loop targets: split -> split(targets...), match
-	if len(loopTargets) == 1 {
-		// Change proxy from epsilon to split
-		s := &builder.states[proxyID]
-		s.kind = StateSplit
-		s.left = loopTargets[0]
-		s.right = matchID
-		s.next = InvalidState // Clear epsilon target
-	} else {
-		// Multiple loop targets - build a chain
-		loopChain := buildSplitChain(builder, loopTargets)
-		s := &builder.states[proxyID]
-		s.kind = StateSplit
-		s.left = loopChain
-		s.right = matchID
-		s.next = InvalidState
-	}
+	s := &builder.states[proxyID]
+	s.kind = StateSplit
+	s.left = inner
+	s.right = matchID
+	s.next = InvalidState // Clear epsilon target
 }
 
 // fillEpsilonState fills a state for pure epsilon transitions
